@@ -50,6 +50,8 @@ def from_native(v):
 def fresh_of_dom(it, dom, name):
     ctx = it.ctx
     world = it.world
+    if dom is api.OMITTED:
+        return dom
     if dom.has_const:
         return from_native(dom.const)
     if dom.parts is not None:
@@ -100,6 +102,8 @@ def fresh_of_dom(it, dom, name):
 
 def dom_membership(it, dom, v):
     """ Bool term / python bool: v belongs to dom (used for callpre on argument domains) """
+    if dom is api.OMITTED:
+        return True
     if dom.has_const:
         return True
     if dom.parts is not None or 'pyobj' in dom.kinds or 'hostfn' in dom.kinds or 'symmap' in dom.kinds or 'prod' in dom.kinds:
@@ -165,15 +169,18 @@ class Contract(object):
     # -- loop specs
     def loops(self, it):
         if self._loops is None:
-            self._loops = []
+            loops = []
             expr = self.assigns.get('loops')
             if expr is not None:
                 it2 = Interp(self.world, Ctx())
                 lst = it2.eval(expr, Frame(self.specmod))
                 for i, d in enumerate(lst):
+                    if d is None:
+                        loops.append(None)
+                        continue
                     types = {k: DomS(from_dom_value(v), self.world) for k, v in (d.get('types') or {}).items()}
-                    self._loops.append(LoopSpec('loop%d' % i, d.get('inv'), d.get('variant'), types,
-                                                d.get('index', 'k')))
+                    loops.append(LoopSpec('loop%d' % i, d.get('inv'), d.get('variant'), types, d.get('index', 'k')))
+            self._loops = loops
         return self._loops
 
     def loop_spec_for(self, it, node):
@@ -430,10 +437,12 @@ class Result(object):
                 'source_sha': self.source_sha}
 
 
-def verify_contract(world, c, timeout_ms=10000, only_case=None):
+def verify_contract(world, c, timeout_ms=10000, only_case=None, budget_s=None):
     """ generate and discharge all obligations of one contract; returns Result """
     res = Result(c)
     t_start = time.time()
+    budget_s = c.timeout_s or budget_s or 240
+    deadline = t_start + budget_s
     try:
         if c.is_lemma:
             fn = None
@@ -526,12 +535,18 @@ def verify_contract(world, c, timeout_ms=10000, only_case=None):
                         ctx.oblige('post', 'post', goal, note='constructor attributes')
                 if 'post' in c.fns:
                     oo = outcome_obj(out)
-                    ok = it.truth(it.call(c.fns['post'], vals + [oo]))
+                    try:
+                        ok = it.truth(it.call(c.fns['post'], vals + [oo]))
+                    except PyRaise as pr:
+                        raise OutOfReach('the postcondition itself raised %s on this path' % pr.cls)
                     ctx.oblige('post', 'post', z3.BoolVal(bool(ok)), note=describe_outcome(out))
                 world.current = None
 
             for ctx, status in explore(run, c.max_paths):
                 res.paths += 1
+                if time.time() > deadline:
+                    res.unreached.append('time budget of %ds for this contract exhausted' % budget_s)
+                    break
                 if status == 'out_of_reach':
                     res.unreached.append(ctx.reach_reason)
                     continue
